@@ -147,13 +147,19 @@ def project(s1, s2, p, delta=0.0):
 
 def box_around_point(p, dist):
     lat, lon = p
-    latr, lonr = radians(lat), radians(lon)
-    # diag_dist = sqrt(2 * dist ** 2)
-    diag_dist = dist
-    lat_t, lon_r = destination_radians(latr, lonr, radians(45), diag_dist)
-    lat_b, lon_l = destination_radians(latr, lonr, radians(225), diag_dist)
-    lat_t, lon_r = degrees(lat_t), degrees(lon_r)
-    lat_b, lon_l = degrees(lat_b), degrees(lon_l)
+    latr = radians(lat)
+    # Angular radius of the disc. The box has to contain the whole spherical cap, not only two diagonal points.
+    d = dist / earth_radius
+    if not d < math.pi / 2 - fabs(latr):
+        # The cap reaches a pole (or the radius is unbounded): every longitude is possible
+        lat_b = -90.0 if not d < math.pi / 2 + latr else degrees(latr - d)
+        lat_t = 90.0 if not d < math.pi / 2 - latr else degrees(latr + d)
+        return lat_b, -180.0, lat_t, 180.0
+    dlon = asin(min(1.0, sin(d) / cos(latr)))
+    # Widen by a relative 1e-9 so that rounding cannot put a point of the disc outside
+    eps = 1e-9 * (1 + d)
+    lat_b, lat_t = degrees(latr - d - eps), degrees(latr + d + eps)
+    lon_l, lon_r = lon - degrees(dlon + eps), lon + degrees(dlon + eps)
     return lat_b, lon_l, lat_t, lon_r
 
 
